@@ -136,6 +136,62 @@ def _chain_default():
     raise TranslatorError("transpiler/chain.py: to_chain_structure not found")
 
 
+SWAP_GATES = ["SWAP", "ISWAP", "SQRTISWAP", "SQRTSWAP", "BERKELEY", "SWAPalpha"]
+RZX_SHAPE = '''
+ordered_gates = ["RZX"]
+ordered = gate.name in ordered_gates
+flip_fwd = ordered and gate.targets[0] == end
+flip_bwd = ordered and gate.targets[0] == start
+'''
+RZX_TEST = "gate.name in swap_gates or gate.name in ordered_gates"
+
+
+def route_rzx():
+    """Does `to_chain_structure` route RZX (fixes/C13-3.patch)?  True: the list `ordered_gates = ["RZX"]`, the branch
+    `elif gate.name in swap_gates or gate.name in ordered_gates`, the three flag assignments and the four
+    `[b, a] if flip_* else [a, b]` target lists; False: none of this and `swap_gates` is the list of the six
+    exchange-type names.  Anything else (e.g. RZX put into `swap_gates`, which would exchange its targets) is not a
+    modelled shape."""
+    tree = _src("transpiler/chain.py")
+    fns = [n for n in tree.body if isinstance(n, ast.FunctionDef) and n.name == "to_chain_structure"]
+    if len(fns) != 1:
+        raise TranslatorError("transpiler/chain.py: to_chain_structure not found")
+    fn = fns[0]
+    assigns = {}
+    for n in ast.walk(fn):
+        if isinstance(n, ast.Assign) and len(n.targets) == 1 and isinstance(n.targets[0], ast.Name):
+            assigns.setdefault(n.targets[0].id, []).append(n.value)
+    sw = assigns.get("swap_gates", [])
+    if len(sw) != 1 or not isinstance(sw[0], ast.List) or [getattr(e, "value", None) for e in sw[0].elts] != SWAP_GATES:
+        raise TranslatorError("to_chain_structure: swap_gates is not the list of the six exchange-type gates")
+    mentions = any(isinstance(n, ast.Name) and n.id in ("ordered_gates", "ordered", "flip_fwd", "flip_bwd")
+                   for n in ast.walk(fn))
+    ifexps = [n for n in ast.walk(fn) if isinstance(n, ast.IfExp)]
+    if not mentions:
+        if ifexps:
+            raise TranslatorError("to_chain_structure: conditional expressions in an unrecognised shape")
+        return False
+    want = {st.targets[0].id: ast.dump(st.value) for st in ast.parse(RZX_SHAPE).body}
+    for name, dump in want.items():
+        got = assigns.get(name, [])
+        if len(got) != 1 or ast.dump(got[0]) != dump:
+            raise TranslatorError(f"to_chain_structure: assignment to {name} not recognised")
+    tests = [ast.dump(n.test) for n in ast.walk(fn) if isinstance(n, ast.If)]
+    if ast.dump(ast.parse(RZX_TEST).body[0].value) not in tests:
+        raise TranslatorError("to_chain_structure: branch for exchange-type / ordered gates not recognised")
+    flips = []
+    for e in ifexps:
+        ok = (isinstance(e.test, ast.Name) and e.test.id in ("flip_fwd", "flip_bwd") and isinstance(e.body, ast.List)
+              and isinstance(e.orelse, ast.List) and len(e.body.elts) == 2 and len(e.orelse.elts) == 2
+              and [ast.dump(x) for x in e.body.elts] == [ast.dump(x) for x in reversed(e.orelse.elts)])
+        if not ok:
+            raise TranslatorError(f"to_chain_structure: target list not recognised: {ast.unparse(e)}")
+        flips.append(e.test.id)
+    if sorted(flips) != ["flip_bwd", "flip_bwd", "flip_fwd", "flip_fwd"]:
+        raise TranslatorError("to_chain_structure: expected two forward and two backward ordered target lists")
+    return True
+
+
 def _chain_call(st, dev):
     """`return to_chain_structure(qc[, setup])` -> the setup string"""
     if isinstance(st, ast.Return) and isinstance(st.value, ast.Call) and isinstance(st.value.func, ast.Name) \
@@ -212,13 +268,13 @@ def _transpile_shape(mro, dev):
 
 def extract():
     """-> (device table, pre: bool) — the interface other translators use (C06)"""
-    devs, (pre, _guard) = extract_all()
+    devs, (pre, _guard, _rz) = extract_all()
     return devs, pre
 
 
 def extract_all():
     """-> ({lean device name: (python class, native list | None, setup | None, setup for smaller circuits | None)},
-    (pre: bool, guard: bool))"""
+    (pre: bool, guard: bool, rz: bool))"""
     table = _classes()
     out, pres = {}, set()
     for lname, cname in DEVICES:
@@ -229,7 +285,7 @@ def extract_all():
         pres.add(_transpile_shape(mro, cname))
     if len(pres) != 1:
         raise TranslatorError("the devices do not share one transpile method")
-    return out, pres.pop()
+    return out, pres.pop() + (route_rzx(),)
 
 
 def _lname(n):
@@ -247,7 +303,7 @@ def render(devs, pre):
          "/-! GENERATED by py/translate/devices.py from /repo/src/qutip_qip/device/{modelprocessor,spinchain,circuitqed,"
          "cavityqed}.py and transpiler/chain.py — do not edit. -/",
          "namespace QipVerif.Gen", "open QipVerif QipVerif.Transpile", ""]
-    pre, guard = pre
+    pre, guard, rz = pre
     for lname, (cname, native, setup, small) in devs.items():
         nat = "none" if native is None else "some [" + ", ".join(_lname(n) for n in native) + "]"
         L.append(f"/-- `{cname}`: native_gates = {native!r}, topology_map setup = {setup!r} -/")
@@ -269,13 +325,18 @@ def render(devs, pre):
     L.append("/-- does `ModelProcessor.transpile` refuse a circuit on more qubits than the processor has? -/")
     L.append(f"def sizeGuard : Bool := {'true' if guard else 'false'}")
     L.append("")
-    L.append("/-- `processor.transpile(qc).gates` of the current source, `qc.N = num_qubits = N` -/")
+    L.append("/-- does `to_chain_structure` route RZX (`ordered_gates`)? -/")
+    L.append(f"def routeRzx : Bool := {'true' if rz else 'false'}")
+    L.append("")
+    L.append("/-- `processor.transpile(qc).gates`, `qc.N = num_qubits = N`, with the router that does not know RZX "
+             "(= the current source for every circuit without RZX, `Lemmas/TranspileRzx.lean`) -/")
     L.append("def transpile (dev : Device) (N : Nat) (gs : List Gate) : Except Transpile.Err (List Gate) :=")
     L.append("  transpileV tables preDecompose (deviceSpec dev) N gs")
     L.append("")
-    L.append("/-- … for a processor with `M` qubits and a circuit with `qc.N = N` -/")
+    L.append("/-- `processor.transpile(qc).gates` of the current source for a processor with `M` qubits and a circuit "
+             "with `qc.N = N` -/")
     L.append("def transpileOn (dev : Device) (M N : Nat) (gs : List Gate) : Except Transpile.ErrD (List Gate) :=")
-    L.append("  transpileD tables preDecompose sizeGuard (deviceSpec dev) (deviceSpecSmall dev) M N gs")
+    L.append("  transpileDR tables preDecompose sizeGuard routeRzx (deviceSpec dev) (deviceSpecSmall dev) M N gs")
     L.append("")
     L.append("end QipVerif.Gen")
     return "\n".join(L) + "\n"
